@@ -346,6 +346,45 @@ theorem for_in_range_step (f : Nat) (ctx : Ctx) (env : Env) (x : Name) (cur : In
   simp only [evalForRng, bind_eq, M.bind, getInt_ok lt s t ht, rngElem]
   split <;> rfl
 
+/-! ### the pipe operator -/
+
+/-- **`x |> f(args)` is `f(x, args)`.**  The arguments are evaluated first (right to left), THEN the piped expression,
+then the function expression; a piped value that is not a tuple becomes the FIRST argument (its cell is passed, as in a
+call). -/
+theorem eval_order_pipe (n : Nat) (ctx : Ctx) (env : Env) (l fe : Expr) (args : List Expr)
+    (s s1 s2 s3 : St) (ls : List Loc) (ll lf : Loc) (v : Val) (fid : Nat) (cells : List Loc)
+    (hargs : evalArgs n ctx env args s = .ok ls s1) (hl : evalE n ctx env l s1 = .ok ll s2)
+    (hv : s2.mem[ll]? = some v) (hnt : ∀ r, v ≠ .rcd r)
+    (hf : evalE n ctx env fe s2 = .ok lf s3) (hclo : s3.mem[lf]? = some (.clo (some (fid, cells)))) :
+    evalE (n + 1) ctx env (.pipe l fe args) s = callClo n ctx fid cells (ll :: ls) s3 := by
+  have hp : pipeArgs ll s2 = .ok [ll] s2 := by
+    simp only [pipeArgs, bind_eq, M.bind, load, hv]
+    cases v <;> first | rfl | exact absurd rfl (hnt _)
+  simp only [evalE, bind_eq, M.bind, hargs, hl, hp, hf, load, hclo, List.singleton_append]
+
+/-- **A piped tuple is unpacked**: `(a, b) |> f(args)` is `f(a, b, args)` — the component CELLS of the tuple become the
+leading arguments (no copy). -/
+theorem pipe_unpacks_tuple (n : Nat) (ctx : Ctx) (env : Env) (l fe : Expr) (args : List Expr)
+    (s s1 s2 s3 : St) (ls : List Loc) (ll lf o : Loc) (fields : Array Loc) (fid : Nat) (cells : List Loc)
+    (hargs : evalArgs n ctx env args s = .ok ls s1) (hl : evalE n ctx env l s1 = .ok ll s2)
+    (hv : s2.mem[ll]? = some (.rcd (some o))) (ho : s2.mem[o]? = some (.recObj "" fields))
+    (hf : evalE n ctx env fe s2 = .ok lf s3) (hclo : s3.mem[lf]? = some (.clo (some (fid, cells)))) :
+    evalE (n + 1) ctx env (.pipe l fe args) s = callClo n ctx fid cells (fields.toList ++ ls) s3 := by
+  have hp : pipeArgs ll s2 = .ok fields.toList s2 := by
+    simp only [pipeArgs, bind_eq, M.bind, load, hv, ho, if_true]; rfl
+  simp only [evalE, bind_eq, M.bind, hargs, hl, hp, hf, load, hclo]
+
+/-- a fault in the arguments: neither the piped expression nor the function expression is evaluated; a fault in the
+piped expression happens after the arguments -/
+theorem eval_order_pipe_fault (n : Nat) (ctx : Ctx) (env : Env) (l fe : Expr) (args : List Expr) (s s1 s2 : St) (ex : Exc)
+    (ls : List Loc) :
+    (evalArgs n ctx env args s = .exc ex s1 → evalE (n + 1) ctx env (.pipe l fe args) s = .exc ex s1) ∧
+    (evalArgs n ctx env args s = .ok ls s1 → evalE n ctx env l s1 = .exc ex s2 →
+      evalE (n + 1) ctx env (.pipe l fe args) s = .exc ex s2) := by
+  constructor
+  · intro h; simp only [evalE, bind_eq, M.bind, h]
+  · intro h1 h2; simp only [evalE, bind_eq, M.bind, h1, h2]
+
 /-! ### non-vacuity: closed programs evaluated by the kernel -/
 
 section Examples
@@ -376,6 +415,18 @@ example : (eval (mk [.bind false "z" (.lit (.int 0)), .expr (.call (.var "f") [p
 /-- out of fuel is reported as such, and more fuel gives the answer -/
 example : (eval (mk [.expr (p 7)]) [] 3).isOutOfFuel := by decide +kernel
 example : (eval (mk [.expr (p 7)]) [] 30).int? = some 7 := by decide +kernel
+
+/-! the pipe operator -/
+
+/-- `p(1) |> f(p(2))` prints 2, 1, then the body's 0, returns 3 — exactly `f(p(1), p(2))` (`eval_order_pipe`) -/
+example : (eval (mk [.expr (.pipe (p 1) (.var "f") [p 2])]) [] 30).out = [50, 13, 10, 49, 13, 10, 48, 13, 10] := by decide +kernel
+example : (eval (mk [.expr (.pipe (p 1) (.var "f") [p 2])]) [] 30).int? = some 3 := by decide +kernel
+/-- `(p(1), p(2)) |> f()` unpacks the tuple: prints 2, 1, 0; returns 3 (`pipe_unpacks_tuple`) -/
+example : (eval (mk [.expr (.pipe (.tuple [p 1, p 2]) (.var "f") [])]) [] 30).out = [50, 13, 10, 49, 13, 10, 48, 13, 10] := by decide +kernel
+example : (eval (mk [.expr (.pipe (.tuple [p 1, p 2]) (.var "f") [])]) [] 30).int? = some 3 := by decide +kernel
+/-- `p(1) |> f(10 / z)` with `z = 0`: the fault in the argument comes first, nothing is printed (`eval_order_pipe_fault`) -/
+example : (eval (mk [.bind false "z" (.lit (.int 0)), .expr (.pipe (p 1) (.var "f") [.bin .div (.lit (.int 10)) (.var "z")])]) [] 30).out
+    = [] := by decide +kernel
 
 /-! ranges and slices -/
 
